@@ -61,6 +61,15 @@ func c11judged() []Choice {
 		tx("change_param(empty key)", chain.TxSpec{Msg: "change_param", From: 4, Key: "", Val: `"1"`}),
 		tx("upgrade(height=0)", chain.TxSpec{Msg: "upgrade", From: 4, Height: 0, Val: "1.0"}),
 	)
+	// (b2) unusual transactions that are accepted today: judged only if they are rejected (a transfer
+	// is debited before it is credited, so a credit step that starts to fail would leave a trace)
+	cs = append(cs,
+		tx("send(to a 23-byte address)", chain.TxSpec{Msg: "send", From: 3, To: 6000 + 9, Amount: 5}),
+		tx("send(to a 19-byte address)", chain.TxSpec{Msg: "send", From: 3, To: 2000 + 9, Amount: 5}),
+		tx("send(to the signer itself)", chain.TxSpec{Msg: "send", From: 3, To: 3, Amount: 5}),
+		tx("dao_transfer(to a 23-byte address)", chain.TxSpec{Msg: "dao_transfer", From: 4, To: 6000 + 9, Amount: 5}),
+		tx("send(to a module address)", chain.TxSpec{Msg: "send_module", From: 3, Key: "pos", Amount: 5}),
+	)
 	// (c) ante failures
 	cs = append(cs,
 		tx("send(signed by other key)", chain.TxSpec{Msg: "send", From: 3, To: 2, Amount: 5, SignBy: 2 + 1}),
@@ -418,7 +427,7 @@ func init() {
 		Run: func(sc *Scenario, blocks []chain.Block) HistResult {
 			return RunC11History(sc.Cfg, sc.Prelude, blocks)
 		},
-		Rule:   "catalogue of judged calls: undecodable/corrupted bytes (6), ValidateBasic failures (6), ante failures (6), handler precondition failures and handler panics (19), CheckTx (4), Simulate (5), Query (26: store key/subspace/proof/heights, custom queries of all modules, app, p2p, malformed paths); each placed alone, before, between and after valid transactions, and after every pair of context blocks (stake, begin-unstake, missed vote, double-sign evidence, raised minimum stake, transfer); non-trivial = a state-changing transaction also succeeded in the history",
+		Rule:   "catalogue of judged calls: undecodable/corrupted bytes (6), ValidateBasic failures (6), unusual accepted transfers judged if rejected (5), ante failures (6), handler precondition failures and handler panics (19), CheckTx (4), Simulate (5), Query (26: store key/subspace/proof/heights, custom queries of all modules, app, p2p, malformed paths); each placed alone, before, between and after valid transactions, and after every pair of context blocks (stake, begin-unstake, missed vote, double-sign evidence, raised minimum stake, transfer); non-trivial = a state-changing transaction also succeeded in the history",
 		QuickS: 240, ThoroughS: 1500,
 		Assume: []string{"a transaction counts as refused-before-the-handler when its result carries no message/action event; otherwise the handler ran and only signer -> fee collector may move", "the control run removes the read-only calls and must produce byte-identical consensus responses and app hashes"},
 	})
